@@ -8,9 +8,32 @@ import os
 import sys
 import traceback
 
-from .term import AnalysisError
+from .term import AnalysisError, HISTORY, SHARED_SEEN
 from .report import Check
 from .loader import Repo
+
+
+HIST_TEXT = ("no function walked for this property returns a value read from module- or class-level state whose key does not "
+             "determine it, or absorbs data into a shared hash object (def-use dataflow over the reader: vstatic/memo.py)")
+
+
+def history_obligations(chk, pid):
+    """shared mutable state met during the walk: history-dependent reads are violations of the walked property"""
+    if not HISTORY and not SHARED_SEEN:
+        return
+    rid = f"{pid}.H"
+    chk.rule(rid, HIST_TEXT, 0)
+    done = set()
+    for h in HISTORY:
+        k = (h.construct, h.key)
+        if k in done:
+            continue
+        done.add(k)
+        chk.ob(rid, h.construct, f"shared state {h.key}", False, h.detail, h.where)
+    for (mod, name, fn), (kind, detail, where) in SHARED_SEEN.items():
+        if (fn, f"{mod}.{name}") in done or kind == "history":
+            continue
+        chk.ob(rid, fn, f"shared state {mod}.{name}", True, f"{kind}: {detail}", where)
 
 
 def main(argv=None):
@@ -45,9 +68,14 @@ def main(argv=None):
         chk.note_analysed(modules=repo.stats["modules"], functions_in_package=repo.stats["functions"],
                           classes_in_package=repo.stats["classes"], source_digest=repo.digest.hexdigest()[:16])
         mod.run(chk, repo, a.tier)
+        history_obligations(chk, pid)
         return chk.finish()
     except AnalysisError as e:
+        if os.environ.get("VERIF_DEBUG"):
+            traceback.print_exc()
         print(f"ANALYSIS-ERROR property={pid} {e}")
+        if chk is not None:
+            history_obligations(chk, pid)
         # violations found before the analysis stopped are still reported
         if chk is not None and any(not o["ok"] for o in chk.obligations):
             try:
